@@ -432,6 +432,46 @@ def rule_f(ctx):
     ctx.floor(R, 3)
 
 
+def rule_g(ctx):
+    R = "C08.g"
+    ctx.rule(R, "argument roles at linear_solve: the vector handed over as previous_solution (read by the pressure-only formulation to decide "
+             "whether the pinned pressure is compatible) is an iterate, never the right-hand side -- in every function of the solver hierarchy "
+             "the names passed as right-hand side to self.residual(rhs, solution) or built as the three-part [0 | M.mass_diff | 0] vector "
+             "must not reach the previous_solution parameter")
+    m = ctx.model
+    base = m.cls(WAS, BASE)
+    ls = m.method(base, "linear_solve")
+    pnames = ls.params[1:]
+    n = 0
+    for k in m.subclasses(base):
+        for f in k.methods.values():
+            calls = [c for c in ast.walk(f.node) if isinstance(c, ast.Call) and norm(c.func) == "self.linear_solve"]
+            if not calls:
+                continue
+            rhs_names, it_names = set(), set()
+            for c in ast.walk(f.node):
+                if isinstance(c, ast.Call) and norm(c.func) == "self.residual" and len(c.args) >= 2:
+                    rhs_names.add(norm(c.args[0]))
+                    it_names.add(norm(c.args[1]))
+                elif isinstance(c, ast.Call) and norm(c.func) == "self.jacobian" and c.args:
+                    it_names.add(norm(c.args[0]))
+            for s_ in ast.walk(f.node):
+                if isinstance(s_, ast.Assign) and isinstance(s_.targets[0], ast.Name) and isinstance(s_.value, ast.Call) and norm(s_.value.func) in ("np.concatenate", "np.hstack") \
+                        and s_.value.args and isinstance(s_.value.args[0], (ast.List, ast.Tuple)) and len(s_.value.args[0].elts) == 3:
+                    rhs_names.add(s_.targets[0].id)
+            for c in calls:
+                prev = c.args[2] if len(c.args) > 2 else next((kw.value for kw in c.keywords if kw.arg == pnames[2]), None)
+                if prev is None:
+                    continue
+                n += 1
+                ctx.instance(R)
+                t = norm(prev)
+                ctx.ob(R, f.qname, f"`{norm(c)[:60]}`: previous_solution is an iterate", t not in rhs_names - it_names,
+                       f"`{t}` is the right-hand side in this function (first argument of self.residual / the assembled [0 | M.mass_diff | 0]): the pressure-only formulation "
+                       "compares it with the pinned pressure and raises, which the solver loop swallows", c, evidence=True)
+    ctx.floor(R, 1)
+
+
 def run(ctx):
     m = ctx.model
     ctx.consult(WAS)
@@ -443,6 +483,7 @@ def run(ctx):
     rule_d(ctx, sa, fa, ta, acc_f, acc_t, setup, ls)
     rule_e(ctx)
     rule_f(ctx)
+    rule_g(ctx)
     # callers of linear_solve: a reused factorisation must belong to the matrix being solved (C04.g)
     from . import c04
     from .common import shared
